@@ -7,7 +7,7 @@
      flows_have_uuid  a flow object has a uuid (FlowContainer.__init__: uuid or generate_new_uuid()) *)
 From Coq Require Import List NArith Bool.
 From RPFT Require Import Base.Sexp Base.PyStr Base.Result Gen.Tables Uuid.UuidDict Uuid.Container
-  Uuid.UuidFacts Uuid.ContainerFacts Uuid.ContainerExamples.
+  Uuid.UuidFacts Uuid.ContainerFacts Uuid.ContainerExamples Uuid.Sheet Uuid.SheetFacts.
 Import ListNotations.
 
 (* the regenerated tables satisfy what the proofs need: record hooks and assign hooks visit
@@ -245,3 +245,131 @@ Example C06_fresh_uuids_nonvacuous :
   /\ length (fst (run_trace ex_ops (init ex_c) 0)) = 3%nat.
 Proof. exact fresh_uuids_nonvacuous. Qed.
 Print Assumptions C06_fresh_uuids_nonvacuous.
+
+(* ---- 7. sheet level: explicit uuids written in flow sheets (column obj_id) ---- *)
+(* Objects: Uuid/Sheet.v — a flow sheet after templating/loops as a list of rows, an insert_as_block
+   row being the rows of the instantiated template ([IBlock]); [sheet_parse_all] mirrors
+   ContentIndexParser.parse_all (every flow sheet parsed by a FlowParser against the ONE new
+   container, then flows, campaigns, triggers added), [sheet_step]/[sheet_run]/[sheet_trace]
+   histories on one long-lived container in which [SParse] is FlowParser(container, ...).parse().
+   What FlowParser does with the obj_id of each row type (records it into its container / puts it on
+   the object it creates) and which container the nested FlowParser of insert_as_block is given are
+   probed from the source tree on every run (uuid_row_hooks, uuid_block_shared).
+   [row_in it b ty n u]: the row (type ty, group/flow name n, obj_id u) occurs in item it, b = it
+   sits inside an inserted template.  [ref_kind ty]: the kind of reference rows of type ty create.
+   [sheet_honoured ty b]: (ty records its obj_id and (b = false or templates share the container))
+   or ty puts the obj_id on the Group/FlowReference it creates. *)
+Theorem C06_sheet_tables_ok : sheet_tables_ok = true.
+Proof. exact sheet_tables_ok_true. Qed.
+Print Assumptions C06_sheet_tables_ok.
+
+(* the obj_id of a row written in a flow sheet itself (any row type that creates a reference:
+   add_to_group, remove_from_group, split_by_group, start_new_flow; in begin_block / begin_for / a
+   data-row template alike) is the uuid of its name at every occurrence of the validated container *)
+Theorem C06_sheet_toplevel_wins : forall wb st st' fs ty n u cs k,
+  sheet_parse_all wb = Ok st -> validate st = Ok st' ->
+  In fs (wb_flows wb) -> In (IRow ty n u cs) (fs_items fs) -> truthy u = true -> ref_kind ty = Some k ->
+  dget (sel k (st_d st')) n = Some u /\ forall u', In (k, (n, u')) (occs (st_c st')) -> u' = u.
+Proof. exact sheet_toplevel_wins. Qed.
+Print Assumptions C06_sheet_toplevel_wins.
+
+(* the obj_id of a group-action row (add_to_group / remove_from_group) wins wherever the row sits,
+   inserted templates of any depth included.  Side condition: no two create_flow rows produce the
+   same flow name (a later flow of the same name replaces the earlier flow object) *)
+Theorem C06_sheet_group_action_wins : forall wb st st' fs it b ty n u,
+  sheet_parse_all wb = Ok st -> validate st = Ok st' ->
+  In fs (wb_flows wb) -> In it (fs_items fs) -> row_in it b ty n u -> truthy u = true ->
+  h_shape (hook_of uuid_row_hooks ty) = 1%N -> NoDup (map fs_name (wb_flows wb)) ->
+  dget (gd (st_d st')) n = Some u /\ forall u', In (KGroup, (n, u')) (occs (st_c st')) -> u' = u.
+Proof. exact sheet_group_action_wins. Qed.
+Print Assumptions C06_sheet_group_action_wins.
+
+Theorem C06_sheet_group_action_rows :
+  h_shape (hook_of uuid_row_hooks s_add_to_group) = 1%N /\ h_shape (hook_of uuid_row_hooks s_remove_from_group) = 1%N
+  /\ h_shape (hook_of uuid_row_hooks s_start_new_flow) = 2%N /\ h_shape (hook_of uuid_row_hooks s_split_by_group) = 3%N.
+Proof. exact group_action_rows. Qed.
+Print Assumptions C06_sheet_group_action_rows.
+
+(* the general form: every honoured row *)
+Theorem C06_sheet_explicit_wins : forall wb st st' fs it b ty n u k,
+  sheet_parse_all wb = Ok st -> validate st = Ok st' ->
+  In fs (wb_flows wb) -> In it (fs_items fs) -> row_in it b ty n u -> truthy u = true ->
+  ref_kind ty = Some k -> sheet_honoured ty b = true -> NoDup (map fs_name (wb_flows wb)) ->
+  dget (sel k (st_d st')) n = Some u /\ forall u', In (k, (n, u')) (occs (st_c st')) -> u' = u.
+Proof. exact sheet_explicit_wins. Qed.
+Print Assumptions C06_sheet_explicit_wins.
+
+Example C06_sheet_explicit_wins_nonvacuous : exists st st',
+  sheet_parse_all ex_sheet_wb = Ok st /\ validate st = Ok st'
+  /\ NoDup (map fs_name (wb_flows ex_sheet_wb))
+  /\ row_in (IBlock [IRow s_send_message [] None []; IBlock [IRow s_remove_from_group [104]%N uB []]]) true s_remove_from_group [104]%N uB
+  /\ sheet_honoured s_remove_from_group true = true /\ ref_kind s_remove_from_group = Some KGroup
+  /\ ref_kind s_split_by_group = Some KGroup /\ ref_kind s_start_new_flow = Some KFlow
+  /\ dget (gd (st_d st')) [104]%N = Some uB /\ dget (gd (st_d st')) nG = Some uA /\ dget (fd (st_d st')) [120]%N = Some uB
+  /\ length (occs (st_c st')) = 14%nat.
+Proof. exact sheet_explicit_wins_nonvacuous. Qed.
+Print Assumptions C06_sheet_explicit_wins_nonvacuous.
+
+(* two honoured rows giving one name different uuids: the workbook does not compile + validate *)
+Theorem C06_sheet_conflict_rejected : forall wb fs1 it1 b1 ty1 fs2 it2 b2 ty2 n u1 u2 k,
+  In fs1 (wb_flows wb) -> In it1 (fs_items fs1) -> row_in it1 b1 ty1 n u1 -> truthy u1 = true ->
+  ref_kind ty1 = Some k -> sheet_honoured ty1 b1 = true ->
+  In fs2 (wb_flows wb) -> In it2 (fs_items fs2) -> row_in it2 b2 ty2 n u2 -> truthy u2 = true ->
+  ref_kind ty2 = Some k -> sheet_honoured ty2 b2 = true ->
+  NoDup (map fs_name (wb_flows wb)) -> u1 <> u2 ->
+  exists e, bind (sheet_parse_all wb) validate = Err e.
+Proof. exact sheet_conflict_rejected. Qed.
+Print Assumptions C06_sheet_conflict_rejected.
+
+Example C06_sheet_conflict_rejected_nonvacuous :
+  sheet_honoured s_split_by_group false = true /\ sheet_honoured s_add_to_group true = true
+  /\ NoDup (map fs_name (wb_flows ex_sheet_conflict_wb)) /\ uA <> uB
+  /\ bind (sheet_parse_all ex_sheet_conflict_wb) validate = Err EConflict.
+Proof. exact sheet_conflict_rejected_nonvacuous. Qed.
+Print Assumptions C06_sheet_conflict_rejected_nonvacuous.
+
+(* FULL statement of the property for sheets: "the obj_id of EVERY reference row wins, wherever the
+   row sits".  For the rows left over by the theorems above — split_by_group / start_new_flow rows
+   inside an inserted template — it is decided by the probed flag: with a shared container it is
+   proved; with the throw-away container of get_node_group it is REFUTED by the witness
+   [sheet_block_witness] (flow f inserts a template whose split_by_group row gives group g the
+   obj_id U1: validate succeeds, g is bound to an invented uuid and U1 occurs nowhere; a second
+   flow giving g the obj_id U2 in its own sheet compiles and renders U2) — finding
+   block-objid-lost:* of findings.d/C06.json, replayed on the real code by the harness *)
+Theorem C06_sheet_block_rows_decided :
+  if uuid_block_shared
+  then forall wb st st' fs it b ty n u k,
+         sheet_parse_all wb = Ok st -> validate st = Ok st' ->
+         In fs (wb_flows wb) -> In it (fs_items fs) -> row_in it b ty n u -> truthy u = true -> ref_kind ty = Some k ->
+         dget (sel k (st_d st')) n = Some u /\ forall u', In (k, (n, u')) (occs (st_c st')) -> u' = u
+  else sheet_block_witness = true.
+Proof. exact sheet_block_rows_decided. Qed.
+Print Assumptions C06_sheet_block_rows_decided.
+
+(* histories on ONE long-lived container: a flow sheet parsed into it by FlowParser(...).parse();
+   an honoured obj_id is the uuid of its name at every later validate/render of that container,
+   whatever is recorded, added, parsed or rendered in between *)
+Theorem C06_sheet_history_wins : forall st fs st1 ops st2 st3 it b ty n u k,
+  hist_inv st -> sheet_step st (SParse fs) = Ok st1 ->
+  In it (fs_items fs) -> row_in it b ty n u -> truthy u = true -> ref_kind ty = Some k -> sheet_honoured ty b = true ->
+  Forall sop_ok ops -> sheet_run ops st1 = Ok st2 -> validate st2 = Ok st3 ->
+  dget (sel k (st_d st3)) n = Some u /\ forall u', In (k, (n, u')) (occs (st_c st3)) -> u' = u.
+Proof. exact sheet_history_wins. Qed.
+Print Assumptions C06_sheet_history_wins.
+
+Example C06_sheet_history_wins_nonvacuous : exists st1 st2 st3,
+  hist_inv (init empty_container)
+  /\ sheet_step (init empty_container) (SParse {| fs_name := nF; fs_items := [IRow s_start_new_flow [120]%N uB []] |}) = Ok st1
+  /\ Forall sop_ok [SOp ORender; SOp (ORecordGroup nG uA); SParse {| fs_name := nF2; fs_items := [IRow s_start_new_flow [120]%N None []] |}]
+  /\ sheet_run [SOp ORender; SOp (ORecordGroup nG uA); SParse {| fs_name := nF2; fs_items := [IRow s_start_new_flow [120]%N None []] |}] st1 = Ok st2
+  /\ validate st2 = Ok st3 /\ dget (fd (st_d st3)) [120]%N = Some uB /\ length (occs (st_c st3)) = 5%nat.
+Proof. exact sheet_history_wins_nonvacuous. Qed.
+Print Assumptions C06_sheet_history_wins_nonvacuous.
+
+(* history independence of the long-lived ContentIndexParser in the model: what parse_all returns,
+   and every render after it, does not depend on what was parsed or rendered before it (the trace
+   the correspondence compares with ONE ContentIndexParser run through P R R P R) *)
+Theorem C06_sheet_parse_all_history_independent : forall wb ops st1 st2 i,
+  sheet_trace (SParseAll wb :: ops) st1 i = sheet_trace (SParseAll wb :: ops) st2 i.
+Proof. exact sheet_parse_all_history_independent. Qed.
+Print Assumptions C06_sheet_parse_all_history_independent.
